@@ -7,7 +7,8 @@ from props import PROPS, HARNESSES
 from manifest_text import TEXT, NOT_APPLICABLE
 
 hook_commits = subprocess.run(["git", "-C", "/repo", "log", "--format=%h %s"], capture_output=True, text=True).stdout.splitlines()
-hook_commits = [l.split(" ")[0] for l in hook_commits if l.split(" ", 1)[1].startswith("verif hook")]
+EXTRA = {"826eff4"}  # conductor hook (committed by the round driver under a generic message)
+hook_commits = [l.split(" ")[0] for l in hook_commits if l.split(" ", 1)[1].startswith("verif hook") or l.split(" ")[0] in EXTRA]
 
 checks = []
 for pid in sorted(PROPS):
